@@ -166,6 +166,13 @@ fn main() {
         let code = st.ok().and_then(|s| s.code());
         match code {
             Some(0) => {}
+            Some(4) if id != "C01" => {
+                // only C01 is about termination; anywhere else a run that exceeds the watchdog is a
+                // problem of the check (e.g. a configuration that is merely slow), never a verdict
+                let what = std::fs::read_to_string(outp.with_extension("wedge")).unwrap_or_default();
+                machinery.push(format!("worker {tag}/{k}: a reader run exceeded the {} ms watchdog: {what}", run::WEDGE_LIMIT_MS));
+                continue;
+            }
             Some(4) => {
                 let what = std::fs::read_to_string(outp.with_extension("wedge")).unwrap_or_default();
                 merged.violations.push(report::Violation {
